@@ -516,7 +516,9 @@ def gen_workload(r, idx, tier):
     poison_blocks = inject_cache_scenarios(r, blocks, nacc)
     exp = sorted(set([r.range(1, nblocks - 4), r.range(nblocks // 2, nblocks - 2)])) if True else []
     # node B restarts after a few random blocks and right after every block that left a rolled-back pool creation behind
-    restarts = sorted(set([r.range(0, nblocks - 2) for _ in range(r.range(2, 4))] + list(poison_blocks)))
+    # (never after the first block: the governance messages of the late setup execute between block 1 and block 2, and a
+    # message executed between process start and the first BeginBlock is something no live node does)
+    restarts = sorted(set([r.range(1, nblocks - 2) for _ in range(r.range(2, 4))] + list(poison_blocks)))
     return {"name": "w%d" % idx, "nacc": nacc, "setup": setup, "blocks": blocks, "export_at": exp, "restart_at": restarts}
 
 
